@@ -12,7 +12,8 @@ fractions.Fraction, independent of the conversion code under test.
   ddm   DDMAngle(degree, minute, positive)           D = +-(3600 d + 60 m)
 """
 import math
-from decimal import Decimal, ROUND_HALF_EVEN
+from decimal import Decimal, ROUND_HALF_EVEN, Context
+_CTX = Context(prec=60, rounding=ROUND_HALF_EVEN)        # the oracle's own context: never the process-wide one (see runner: environments)
 from fractions import Fraction
 
 from .. import repo
@@ -31,7 +32,7 @@ def hp_fields(h):
     """(negative?, degrees, minutes, seconds as Fraction) of an HP float under the rendering rule above."""
     h = float(h)
     places = 13 if abs(h) < 512 else 12
-    q = Decimal(abs(h)).quantize(Decimal(1).scaleb(-places), rounding=ROUND_HALF_EVEN)
+    q = Decimal(abs(h)).quantize(Decimal(1).scaleb(-places, _CTX), rounding=ROUND_HALF_EVEN, context=_CTX)
     digits = format(q, "f")
     ip, fp = digits.split(".")
     fp = fp.ljust(13, "0")
